@@ -330,6 +330,19 @@ def run(chk):
             chk.violation("C11.closing", c, K.short(c), "asyncio.Task(coro, loop=loop, eager_start=True)",
                           "the task that takes the send lock for a large compressed frame only starts on the next loop iteration: the frame has already passed the `_closing` test, a close() issued in between finds the lock free and writes the Close frame first, and the data frame follows Close on the wire")
     chk.expect_count("C11.closing.spawn", nsp, 2, "task creations in send_frame()")
+    # ---- C11.lock (ownership): the send lock is per writer, so the deflate context it guards must be per writer too ----------------------------
+    gc = repo.func(WM, f"{W}._get_compressor")
+    nret = 0
+    for r in [r for r in ast.walk(gc.node) if isinstance(r, ast.Return) and r.value is not None]:
+        nret += 1
+        v = norm.subst(r.value, r)
+        own = (isinstance(v, ast.Call) and norm.raw(v.func) == "ZLibCompressor") or (isinstance(v, ast.Attribute) and isinstance(v.value, ast.Name) and v.value.id == "self")
+        if own:
+            chk.ok("C11.lock", r, f"_get_compressor(): `{K.short(v, 40)}` is a context of this writer (its own attribute or freshly built for the message)")
+        else:
+            chk.violation("C11.lock", r, K.short(r, 60), "self._compressobj or a ZLibCompressor built for this message",
+                          "_get_compressor() hands out a deflate context that lives outside the writer (module-level / shared between connections): _send_lock and the shield are per writer, so while one connection's message over 16 KiB is being compressed in the executor another connection compresses and flushes on the same zlib object - its frame carries the tail of the other connection's message, and the large message loses it")
+    chk.expect_count("C11.lock.owner", nret, 2, "return statements of _get_compressor")
     # ---- C11.bytelen: frame lengths are byte counts; len() of a memoryview counts items ---------------------------------------------------
     bytelen(chk, repo, sf, "message", "C11.bytelen")
     # ---- C11.copy: what reaches the transport is not a buffer the caller can still change ---------------------------------------------
